@@ -111,6 +111,27 @@ def correspondence(ctx):
                 r.fail('hashseed-mismatch', 'PYTHONHASHSEED=%d differs from the model' % k, input=s, seed=k,
                        impl=got[:300], model=want[:300])
     r.bump('hash_seeds', len(seeds))
+    # (3) histories of parses with different options in ONE interpreter: each answer must be the model's
+    # answer for (source, options), whatever was parsed before
+    docs = [oracles.mini_doc(rg, 3) for _ in range(ctx.pick(300, 3000))]
+    opts = [(), ('a',), ('bb', 'center'), ('tabular',), ('a', 'bb', 'center', 'tabular')]
+    cases = []
+    for d in docs:
+        cases.append((d, rg.randrange(2), rg.choice(opts)))
+        cases.append((d, 0, ()))
+    import parsecorr as pc
+    before = len(r.failures)
+    hist = Result()
+    for s_, t_, sk_ in cases:          # sequential, same process: earlier options must not leak
+        got = common.impl_parse(s_, t_, sk_)[0]
+        hist.samples.append(got)
+    want = common.model_batch_parallel([common.parse_req(s_, t_, sk_) for s_, t_, sk_ in cases])
+    for (s_, t_, sk_), got, w in zip(cases, hist.samples, want):
+        r.count(('opts', s_, t_, sk_), True)
+        if got != w:
+            r.fail('options-history-mismatch', 'parse after parses with other options differs from the model',
+                   input=s_, tol=t_, skip=list(sk_), impl=got[:300], model=w[:300])
+    r.bump('option_history_parses', len(cases))
     r.rule = ('the model is a function of the characters: every input form (list/tuple/generator/lines/file/characters, all '
               'split points of short sources) and every interpreter hash seed must give the model\'s answer for the joined '
               'characters; sources: token-kind alphabet, repository documents, every sizing-prefix x delimiter combination')
@@ -151,6 +172,11 @@ def interleave(s1, s2, rg):
         return None
     a = T.TexSoup(s1)
     b = T.TexSoup(s2)
+    # a parse with other OPTIONS in between must not influence later default parses either
+    try:
+        T.TexSoup(s1, skip_envs=('a', 'bb', 'center', 'tabular'), tolerance=1)
+    except Exception:
+        pass
     a2 = T.TexSoup(s1)
     if object_ids(a) & object_ids(a2):
         return ('shared-state', 'two parses of the same source share mutable objects')
@@ -180,6 +206,15 @@ def interleave(s1, s2, rg):
     return 'ok'
 
 
+def _interleave_job(job):
+    import random
+    s1, s2, sd = job
+    try:
+        return interleave(s1, s2, random.Random(sd))
+    except RecursionError:
+        return None
+
+
 def oracle(ctx, seeds, scale):
     r = Result()
     common.impl()
@@ -203,10 +238,16 @@ def oracle(ctx, seeds, scale):
         r.count(('seeds', s), True)
         if len(vals) != 1:
             r.fail('hashseed-dependent', 'result depends on PYTHONHASHSEED', input=s)
-    # interleavings and isolation
+    # interleavings and isolation: every case in a freshly forked child, so that no state left behind by
+    # another case (or by this process) can hide an influence
     docs = [oracles.mini_doc(rg, 3) for _ in range(ctx.pick(150, 2000))]
-    for s1, s2 in zip(docs, docs[1:]):
-        x = interleave(s1, s2, rg)
+    pairs = [(s1, s2, rg.randrange(1 << 30)) for s1, s2 in zip(docs, docs[1:])]
+    os.environ['REPO'] = common.REPO
+    import multiprocessing as mp
+    # 'spawn': fresh interpreters - this process may itself have parsed with other options already
+    with mp.get_context('spawn').Pool(min(16, os.cpu_count() or 1), maxtasksperchild=8) as pool:
+        results = pool.map(_interleave_job, pairs, chunksize=1)
+    for (s1, s2, _), x in zip(pairs, results):
         r.count(('inter', s1, s2), True)
         if x not in (None, 'ok'):
             r.fail(x[0], x[1], input=s1, other=s2)
